@@ -383,3 +383,23 @@ func SkipUnlessSelected(t *testing.T, prop string) {
 		t.Skipf("VERIF_PROP=%q, this is %s", p, prop)
 	}
 }
+
+// replayers re-execute a recorded choice stream for a property without rapid
+// (several families may serve one property; all are tried).
+var replayers = map[string][]func(vals []int, keepLog bool) *sim.World{}
+
+func regSafety(prop string, mk func() []*sim.Mon, sh Shape) {
+	replayers[prop] = append(replayers[prop], func(vals []int, keepLog bool) *sim.World {
+		return RunSafety(&ReplaySrc{Vals: vals}, mk(), keepLog, sh)
+	})
+}
+
+// LabelSrc answers every draw with a fixed value per label (default 0): for hand-written scenarios.
+type LabelSrc map[string]int
+
+func (s LabelSrc) Intn(label string, n int) int {
+	if n <= 1 {
+		return 0
+	}
+	return s[label] % n
+}
